@@ -41,6 +41,9 @@ type ColumnInfo struct {
 
 const queryDataItemKey = "query_data_items"
 
+// QueryDataItemKey is a key for storing QueryDataItems of the last analysed SELECT in session
+const QueryDataItemKey = queryDataItemKey
+
 // SaveQueryDataItemsToClientSession save slice of QueryDataItem into ClientSession
 func SaveQueryDataItemsToClientSession(session decryptor.ClientSession, items []*QueryDataItem) {
 	session.SetData(queryDataItemKey, items)
